@@ -86,6 +86,7 @@ var (
 // Init resets code to scan.
 func (s *Scanner) Init(src string) {
 	s.src = []rune(src)
+	s.offset, s.lineHead, s.line = 0, 0, 0
 }
 
 // Scan analyses token, and decide identify or literals.
